@@ -112,6 +112,21 @@ def gen_cases(tier, seed):
                 c = copy.deepcopy(a)
                 c.update({"family": "alias", "driver": "parfile", "bs": bs, "sched": "gate", "order": None, "sseed": r.randrange(1 << 30), "fs": "ext4"})
                 yield c
+    # family 4: ordinary, alias-free copies of sources with unusual metadata (set-ID bits, foreign owners, xattrs, odd times):
+    # a successful copy must leave all of it alone
+    for i in range(40 if tier == "quick" else 600):
+        spec = [{"p": "src", "k": "d", "mode": r.choice([0o755, 0o700, 0o2775, 0o1777])}]
+        for j in range(r.randint(2, 6)):
+            e = F("src/m%d" % j, r.choice([0, 100, 70000]), r.randrange(1, 1 << 30), mode=r.choice([0o4755, 0o2755, 0o6755, 0o1644, 0o644, 0o600, 0o4711, 0o2644]),
+                  mtime_ns=r.choice([1, 978_307_200_123_456_789, 4_000_000_000_500_000_000]))
+            e["xattrs"] = r.choice([{}, {"user.a": "1"}, {"user.flag": "", "user.b": "\x00\x01"}])
+            if r.random() < 0.6:
+                e["uid"], e["gid"] = r.choice([(1000, 1000), (0, 4321), (12345, 0), (65534, 65534)])
+            spec.append(e)
+        spec.append({"p": "src/lnk", "k": "l", "target": "m0"})
+        flags = r.choice([[], [], ["--ownership"], ["--no-perms"], ["--no-timestamps"], ["--ownership", "--fsync"], ["-L"], ["--backup", "numbered"]])
+        yield {"family": "rich", "spec": spec, "args": ["--driver", ["parfile", "parblock"][i % 2], "-w", "3", "--block-size", "16KB"] + flags + ["-r", "src", "dst"],
+               "driver": ["parfile", "parblock"][i % 2], "flags": flags, "fs": "ext4", "fault": r.random() < 0.3}
     # families 2 and 3: baseline cases whose sites are enumerated at run time
     nbase = 4 if tier == "quick" else 40
     for i in range(nbase):
@@ -183,7 +198,7 @@ def run_alias(case, res):
             return
         post = tree.snapshot(root)
         # protected: the named source files plus everything that is not a destination of this invocation
-        protected = set(case["protected"]) | {p for p in pre if p.startswith("other") or p.startswith("d/") or p in ("f", "p", "l")}
+        protected = set(case["protected"]) | {p for p in pre if p.startswith("other") or p.startswith("d/") or p in ("f", "p", "l", "d", "other", "links")}
         for frag, msg in protected_diff(pre, post, protected, []):
             res["viol"].append({"sig": "alias:%s:%s:%s" % (case["alias"], case.get("variant", "plain"), frag),
                                 "what": "%s; exit=%s driver=%s args=%s" % (msg, run.status, case["driver"], " ".join(case["args"]))})
@@ -254,8 +269,35 @@ def run_sites(case, res):
             res["evals"][-1]["sample"] = {"family": "sites", "args": case["args"], "last_plan": rule}
 
 
+def run_rich(case, res):
+    with core.Sandbox(case["fs"], "c03") as sb:
+        root = sb.root
+        tree.materialize(root, case["spec"])
+        pre = tree.snapshot(root)
+        plan = {"log_mode": "none"}
+        if case["fault"]:
+            # a tolerated failure (ownership is documented as a warning) must not make xcp touch the source instead
+            plan["rules"] = [{"id": "f", "sys": "fchown", "under": root + "/", "action": "fault", "errno": 1}]
+        run = core.run_xcp(sb, case["args"], plan)
+        if run.verdict != "exited":
+            res["inconc"].append("run-" + run.verdict)
+            return
+        post = tree.snapshot(root)
+        protected = {p for p in pre if p == "src" or p.startswith("src/")}
+        for frag, msg in protected_diff(pre, post, protected, []):
+            res["viol"].append({"sig": "rich:%s:%s" % (",".join(case["flags"]) or "default", frag),
+                                "what": "%s; exit=%s driver=%s args=%s" % (msg, run.status, case["driver"], " ".join(case["args"]))})
+        res["counters"]["rich-runs"] = 1
+        res["counters"]["rich-exit0" if run.exit0 else "rich-nonzero"] = 1
+        res["evals"].append({"key": ["rich", case["driver"], tuple(case["flags"]), case["fault"]],
+                             "sample": {"family": "rich", "args": case["args"], "sources": [{"mode": "%04o" % e.get("mode", 0), "owner": [e.get("uid", 0), e.get("gid", 0)]} for e in case["spec"][1:4]]}})
+
+
 def run_case(case):
     res = {"evals": [], "viol": [], "inconc": [], "counters": {}}
+    if case["family"] == "rich":
+        run_rich(case, res)
+        return res
     if case["family"] == "alias":
         run_alias(case, res)
     else:
